@@ -126,7 +126,7 @@ CLAIMS = {
                 "string printer's text is read back as that byte by the Emacs Lisp string reader, control characters using "
                 "the \\u00XX form; every printable character written by write_elisp_char (backslash chosen from "
                 "ELISP_ESCAPE_CHARS) is read back as itself (95 cases); every `#` token constant of the printer is "
-                "dispatched by parse_token to the matching token kind; the octal digit table is correct. The 576 x 1536 "
+                "dispatched by parse_token to the matching token kind; The 576 x 1536 "
                 "option cross product, nil/t folding and value equality are not decided.",
         "note": _TB + "core::fmt {:x} prints lowercase hexadecimal.",
         "technique": "writer/reader table composition by conditional constant propagation; byte-class subset checks",
